@@ -3,9 +3,12 @@ package mux
 // C11 — the multiplexer fails stop: case type, generator and the trunk fault wrapper.
 
 import (
+	"io"
 	"net"
+	"os"
 	"sync"
 	"sync/atomic"
+	"syscall"
 
 	"github.com/containerd/nri/pkg/verifhook"
 	"pgregory.net/rapid"
@@ -25,7 +28,7 @@ type C11Stream struct {
 
 // C11Failure is the failure event of the case.
 type C11Failure struct {
-	Kind        string `json:"kind"` // none | close_mux | close_conn | cut_write | cut_read | overflow
+	Kind        string `json:"kind"` // none | close_mux | close_conn | cut_write | cut_read | read_error | deadline | overflow
 	Side        int    `json:"side"` // mux that is closed / whose trunk is faulty
 	Conn        int    `json:"conn,omitempty"`
 	Closers     int    `json:"closers,omitempty"`
@@ -37,6 +40,11 @@ type C11Failure struct {
 	CutAfter    int64  `json:"cut_after,omitempty"` // cut_*: bytes let through before the trunk fails
 	Half        bool   `json:"half,omitempty"`      // cut_write: only the write direction is shut down
 	CutWhere    string `json:"cut_where,omitempty"` // how CutAfter was chosen (informational: class histogram)
+	// read_error: after CutAfter bytes the trunk's Read returns an error of this class once
+	// (timeout | eagain | eintr | temporary | noprogress | eof | other) and then goes on
+	// delivering; ErrWithData: the error comes together with the last bytes (n > 0, err)
+	ErrClass    string `json:"err_class,omitempty"`
+	ErrWithData bool   `json:"err_with_data,omitempty"`
 }
 
 // C11Close describes the orderly Close that ends every case.
@@ -129,6 +137,8 @@ func genC11(t *rapid.T) C11Case {
 		"cut_write", "cut_write", "cut_write", "cut_write",
 		"overflow", "overflow", "overflow",
 		"cut_read", "cut_read",
+		"read_error", "read_error", "read_error", "read_error",
+		"deadline",
 		"close_conn", "close_conn",
 		"none", "none",
 		"listener",
@@ -178,11 +188,19 @@ func genC11(t *rapid.T) C11Case {
 			f.HookHit = rapid.IntRange(1, 2*totalWrites+2).Draw(t, "hookhit")
 		}
 		f.DelayUs = rapid.SampledFrom([]int{0, 0, 0, 50, 300, 1000}).Draw(t, "fdelay")
-	case "cut_write", "cut_read":
+	case "deadline":
+		f.AfterWrites = rapid.IntRange(0, totalWrites+1).Draw(t, "after")
+		f.DelayUs = rapid.SampledFrom([]int{0, 50, 300, 1000, 3000}).Draw(t, "fdelay")
+	case "cut_write", "cut_read", "read_error":
 		dir := f.Side
-		if kind == "cut_read" {
+		switch kind {
+		case "cut_read":
 			dir = 1 - f.Side
-		} else {
+		case "read_error":
+			dir = 1 - f.Side
+			f.ErrClass = rapid.SampledFrom(readErrClasses).Draw(t, "err_class")
+			f.ErrWithData = rapid.IntRange(0, 2).Draw(t, "err_with_data") == 0
+		default:
 			f.Half = rapid.IntRange(0, 3).Draw(t, "half") == 0
 		}
 		// byte layout of the direction if the streams were sent one after the other; with
@@ -381,7 +399,13 @@ type cutConn struct {
 	closedC        chan struct{}
 	armOnce        sync.Once
 	closeOnce      sync.Once
-	onCut          func()
+	// error injection instead of a cut: Read fails once with injErr at the offset and the
+	// socket stays open; onInject(expectFailure) is called at that moment
+	injErr   error
+	injData  bool
+	injected atomic.Bool
+	onInject func(expectFailure bool)
+	onCut    func()
 }
 
 func (c *cutConn) doCut() {
@@ -453,6 +477,9 @@ func (c *cutConn) Read(p []byte) (int, error) {
 			return c.Conn.Read(p) // closed: reports the error of the closed socket
 		}
 	}
+	if c.injErr != nil {
+		return c.readInject(p)
+	}
 	if c.cut.Load() {
 		return 0, errHarnessCut
 	}
@@ -472,4 +499,57 @@ func (c *cutConn) Read(p []byte) (int, error) {
 		c.doCut()
 	}
 	return n, err
+}
+
+// readInject: the trunk delivers rLimit bytes, fails once with injErr, and then goes on.
+func (c *cutConn) readInject(p []byte) (int, error) {
+	if c.injected.Load() || len(p) == 0 {
+		return c.Conn.Read(p)
+	}
+	room := c.rLimit - atomic.LoadInt64(&c.rN)
+	if room <= 0 {
+		c.injected.Store(true)
+		c.onInject(true)
+		return 0, c.injErr
+	}
+	want := len(p)
+	if int64(len(p)) > room {
+		p = p[:room]
+	}
+	n, err := c.Conn.Read(p)
+	if atomic.AddInt64(&c.rN, int64(n)) >= c.rLimit && err == nil && c.injData && n > 0 {
+		c.injected.Store(true)
+		// the multiplexer reads with io.ReadFull, which drops the error of a Read that completes
+		// the buffer: then nothing has failed from its point of view
+		c.onInject(n < want)
+		return n, c.injErr
+	}
+	return n, err
+}
+
+var readErrClasses = []string{"timeout", "timeout", "timeout", "eagain", "eintr", "temporary", "noprogress", "eof", "other"}
+
+type tempError struct{}
+
+func (tempError) Error() string   { return "harness: temporary trunk error" }
+func (tempError) Timeout() bool   { return false }
+func (tempError) Temporary() bool { return true }
+
+// readErrOf returns the error a trunk Read fails with for an error class.
+func readErrOf(class string) error {
+	switch class {
+	case "timeout": // what a read deadline produces
+		return &net.OpError{Op: "read", Net: "unix", Err: os.ErrDeadlineExceeded}
+	case "eagain":
+		return &net.OpError{Op: "read", Net: "unix", Err: os.NewSyscallError("read", syscall.EAGAIN)}
+	case "eintr":
+		return &net.OpError{Op: "read", Net: "unix", Err: os.NewSyscallError("read", syscall.EINTR)}
+	case "temporary":
+		return &net.OpError{Op: "read", Net: "unix", Err: tempError{}}
+	case "noprogress":
+		return io.ErrNoProgress
+	case "eof":
+		return io.EOF
+	}
+	return errHarnessCut
 }
